@@ -33,6 +33,10 @@ def build(ctx: Any, spec: List[str], prefix: str) -> List[Any]:
             out.append(DNSText(name, const._TYPE_TXT, IN | UNIQUE, 4500, Blob(ctx.int(f'{prefix}{i}_len', 0, hi)), 1000))
         elif kind == 'A':
             out.append(DNSAddress(name, const._TYPE_A, IN | UNIQUE, 120, b'\x0a\x00\x00\x01', None, 1000))
+        elif kind == 'ADDR':
+            # an address record whose rdata length is whatever arrived (a datagram cut short leaves fewer than 4 / 16 octets in the cache,
+            # and cached address records are listed as known answers by lookups)
+            out.append(DNSAddress(name, const._TYPE_AAAA, IN | UNIQUE, 120, Blob(ctx.int(f'{prefix}{i}_len', 0, 20)), None, 1000))
         elif kind == 'PTR':
             out.append(DNSPointer(name.split('>')[0], const._TYPE_PTR, IN, 4500, name.split('>')[1], 1000))
         elif kind == 'SRV':
@@ -101,6 +105,8 @@ def make(shape: Dict[str, Any]) -> Any:
                         ctx.check(e['type'] == want.type, f'datagram {k}: type of {want.name} wrong')
                         if isinstance(want, DNSText):
                             ctx.check(e['rdlength'] == want.text.n, f'datagram {k}: RDLENGTH of {want.name} is not its rdata length')
+                        if isinstance(want, DNSAddress) and isinstance(want.address, Blob):
+                            ctx.check(e['rdlength'] == want.address.n, f'datagram {k}: RDLENGTH of {want.name} is not its rdata length')
                         if isinstance(want, (DNSPointer, DNSService)):
                             tgt = want.alias if isinstance(want, DNSPointer) else want.server
                             off = e['rdata_index'] + (3 if isinstance(want, DNSService) else 0)
@@ -129,6 +135,9 @@ QUICK = {
     'unicast-response': sh(multicast=False, questions=['Q:_s._tcp.local.'], answers=['TXT:a._s._tcp.local.'], additionals=['A:h.local.']),
     'hinfo-then-names': sh(answers=['HINFO:h.x.local.', 'TXT:a.x.local.'], additionals=['SRV:a.x.local.>h.x.local.']),
     'empty': sh(),
+    'one-txt-up-to-the-limit': sh(answers=['TXT<=8933:a.x.local.']),  # header 12 + name 11 + fixed 10 + rdata: exactly 8966 at the top
+    'a-then-txt-up-to-the-limit': sh(answers=['A:h.x.local.', 'TXT<=8933:a.x.local.']),
+    'odd-address-lengths': sh(query=True, questions=['Q:_s._tcp.local.'], answers=['ADDR:h.x.local.', 'ADDR:h.x.local.', 'PTR:_s._tcp.local.>h.x.local.', 'SRV:a.x.local.>h.x.local.']),
     'adds-spill': sh(answers=['A:h.x.local.'], additionals=['TXT:a.x.local.', 'TXT:b.x.local.', 'SRV:a.x.local.>h.x.local.']),
 }
 THOROUGH = {
